@@ -117,9 +117,50 @@ def _exclusions():
 
 
 def _open_triggers():
+    """Names of the triggers of all *open* known findings (of any property: the defects below live in code shared with
+    C06 / C01, the lead may file them there)."""
     from lov.findings import load
 
-    return {e.get("trigger") for e in load() if e.get("status", "open") == "open" and e.get("property") == ID and e.get("trigger")}
+    return {e.get("trigger") for e in load() if e.get("status", "open") == "open" and e.get("trigger")}
+
+
+# ---- triggers of the genuine defects found by this check (DESIGN 1.6, README rule 3) ---------------------------------
+def _unit_repeat_diag_nodes(r):
+    """BatchRepeat with an all-ones repeat over a DiagLinearOperator instance: BatchRepeatLinearOperator._cholesky calls
+    TriangularLinearOperator(<diag operator>), which reads the missing attribute `_tensor`."""
+    return [
+        nd for nd in R.walk(r)
+        if nd["op"] == "BatchRepeat" and all(int(x) == 1 for x in nd["repeat"]) and gen.is_diag_instance(nd["base"])
+    ]  # fmt: skip
+
+
+def _kpad_const_kron_batched_nodes(r):
+    """KroneckerProductAddedDiag whose diagonal is a Kronecker product of ConstantDiag factors, with > 1 batch members:
+    the Lanczos-method root scales the eigenvector factors by a (*batch, 1) tensor as if it were a matrix."""
+    out = []
+    for nd in R.walk(r):
+        if nd["op"] != "KroneckerAddedDiag":
+            continue
+        for a in nd["args"]:
+            if a["op"] == "KroneckerDiag" and all(c["op"] == "ConstantDiag" for c in a["args"]):
+                if gen.prod(refmodel.shape(nd)[:-2]) > 1:
+                    out.append(nd)
+    return out
+
+
+def _normalise_for_open_findings(r, open_triggers):
+    """Avoid exactly the triggering feature while the finding is open (same matrices, different class path)."""
+    if "batchrepeat_unit_repeat_diag_base" in open_triggers:
+        for nd in _unit_repeat_diag_nodes(r):
+            base = nd["base"]
+            nd["base"] = {"op": "Dense", "t": L.lit(refmodel.dense(base).tolist(), R.dtype_of(base))}
+    if "kpad_constant_kron_diag_batched" in open_triggers:
+        for nd in _kpad_const_kron_batched_nodes(r):
+            for a in nd["args"]:
+                if a["op"] == "KroneckerDiag":
+                    c = a["args"][0]
+                    vals = L.value(c["c"], torch.float64)
+                    a["args"][0] = {"op": "Diag", "d": L.lit(vals.expand(*vals.shape[:-1], c["n"]).tolist(), c["c"]["dt"])}
 
 
 # ------------------------------------------------------------------------------------------------
@@ -154,7 +195,7 @@ def _shape_of_recipe(r):
 @st.composite
 def cases(draw, tier):
     excl = _exclusions()
-    mode = "precond" if draw(st.integers(0, 11)) == 0 else "sample"
+    mode = "precond" if draw(st.integers(0, 15)) == 0 else "sample"
     cell_name = draw(st.sampled_from(CELLS))
     max_depth = draw(st.sampled_from([2, 2, 3] if tier == "quick" else [2, 3, 3]))
     dts = ("f64", "f64", "f32")
@@ -175,11 +216,12 @@ def cases(draw, tier):
         heads = SPECIAL_HEADS if draw(st.integers(0, 4)) < 3 else GENERIC_HEADS
         r = draw(gen.recipes(dom, max_depth=max_depth, max_dim=6, dts=dts, exclude=excl, head=heads, batches=BATCHES18))
     _permute_interp_slots(draw, r)
+    _normalise_for_open_findings(r, _open_triggers())
     shp = _shape_of_recipe(r)
     n = shp[-1]
     members = gen.prod(shp[:-2])
     mult = len(r["args"]) if r["op"] in SUM_NODES else 1
-    kmax = max(1, min(3, 72 // max(1, members * n * mult)))
+    kmax = max(1, min(3, 100 // max(1, members * n * mult)))
     if cell_name == "ciq":
         kmax = min(kmax, 2)
     k = draw(st.integers(1, kmax))
@@ -355,7 +397,8 @@ def _bounds(r, eps_rel, eps_abs):
     A = refmodel.dense(r)
     nrm = _spec(A)
     own = eps_abs + eps_rel * nrm
-    own_mu = float(torch.diagonal(A, dim1=-2, dim2=-1).abs().max().sqrt()) if A.numel() else 0.0
+    # row norm of the node's own root: sqrt(A_pp), of the possibly jittered / perturbed matrix
+    own_mu = (float(torch.diagonal(A, dim1=-2, dim2=-1).abs().max()) + own) ** 0.5 if A.numel() else 0.0
     sub = [_bounds(c, eps_rel, eps_abs) for c in R.children(r)] if op not in ("Root", "Chol", "LowRankRoot") else []
     if op in SUM_NODES:
         st_ = sum(e for e, _ in sub)
@@ -514,12 +557,18 @@ def check(case):
     class _Unavailable(Exception):
         pass
 
+    class _BuildFailed(Exception):
+        pass
+
     def run(delta=None):
         tape.begin(delta)
         with state.apply_settings(settings_cell), mock.patch.object(torch, "randn", tape), mock.patch.object(
             watch.mod, "lanczos_tridiag", watch
         ):
-            op = R._build(r, None)
+            try:
+                op = R._build(r, None)
+            except Exception as e:
+                raise _BuildFailed(X.describe(e))
             if mode == "precond":
                 try:
                     P = op._preconditioner()[1]
@@ -551,10 +600,17 @@ def check(case):
             S0 = run()
         except _Unavailable:
             return done("skip:precond_unavailable")
+        except _BuildFailed as e:
+            # constructing the operator under these settings failed (e.g. MulLinearOperator root-decomposes its operands
+            # in __init__): there is no operator to sample from -- C01/C02/C06 territory, visible in the evidence only
+            return done("skip:build_exc", extra=["build_exc:" + str(e)])
         except HarnessError:
             raise
         except Exception as e:
-            path = info["kind"] + ":" + "+".join(state.algorithms(state._capture.lines)) if info["kind"] != "?" else "build"
+            if watch.degenerate:
+                # the failure happened after a Lanczos run on a deficient Krylov space (C09 territory)
+                return done("skip:lanczos_degenerate", extra=["lanczos_degenerate_exc:" + type(e).__name__])
+            path = info["kind"] + ":" + "+".join(state.algorithms(state._capture.lines))
             if X.is_declined(e, None):
                 return done("declined:" + type(e).__name__, extra=["declined_head:" + head])
             fail("cov", "exc:" + X.describe(e), "sampling raised %r" % (e,))
@@ -589,7 +645,7 @@ def check(case):
         def safe_run(delta):
             try:
                 return run(delta)
-            except (HarnessError, _Unavailable):
+            except (HarnessError, _Unavailable, _BuildFailed):
                 raise
             except Exception as e:
                 fail("cov", "exc:" + X.describe(e), "sampling raised %r when the normal draw %s was shifted" % (e, (delta,)))
@@ -688,7 +744,8 @@ def check(case):
         "nontrivial": nontrivial,
         "key": key,
         "labels": labels + ["outcome:checked"],
-        "sample": dict(sample, path=path, elements=len(owner), rootrand=len(nonlin_draws), eref=eref),
+        "sample": dict(sample, path=path, elements=len(owner), rootrand=len(nonlin_draws), eref=eref, fd_E=E,
+                       excess={nm: round(worst[nm][0], 6) for nm in worst}),  # fmt: skip
     }
 
 
@@ -702,7 +759,7 @@ def _tolerances(case, r, dtname, algos, jitter, ref0, n0max):
         eps_rel += CIQ_REL[dtname]
         # |S_ciq(x) - A^{1/2} x|_inf <= CIQ_REL * sqrt(lambda_max) * ||x||_2, ||x||_2 <= sqrt(n) (max|N0| + 2); two runs are subtracted
         ciq_uniform = 2.0 * CIQ_REL[dtname] * (_spec(ref0) ** 0.5) * (n0max + 2.0) * (ref0.shape[-1] ** 0.5)
-    return eps_rel, float(jitter), ciq_uniform
+    return eps_rel, 1.01 * float(jitter), ciq_uniform
 
 
 def gaps(labels):
@@ -728,4 +785,7 @@ def coverage_extra():
     }
 
 
-TRIGGERS = {}
+TRIGGERS = {
+    "batchrepeat_unit_repeat_diag_base": lambda case: bool(_unit_repeat_diag_nodes(case["recipe"])),
+    "kpad_constant_kron_diag_batched": lambda case: bool(_kpad_const_kron_batched_nodes(case["recipe"])),
+}
